@@ -29,6 +29,8 @@ type Op struct {
 	Ref string `json:"ref,omitempty"`
 	// cpush: these nodes are pushed at the same moment, one goroutine each
 	Ns []int `json:"ns,omitempty"`
+	// Poll (gc): a first GC runs under a context that is cancelled at its Poll-th poll
+	Poll int `json:"poll,omitempty"`
 }
 
 // Stray is a file dropped directly under blobs/.
@@ -58,7 +60,46 @@ func hexName(seed, n int) string {
 	return sb.String()
 }
 
-func genAlias(t *rapid.T) Case { return genCaseOpt(t, true) }
+func genAlias(t *rapid.T) Case {
+	if rapid.IntRange(0, 5).Draw(t, "manifestAsBlob") == 2 {
+		return manifestAsBlobCase(t)
+	}
+	return genCaseOpt(t, true)
+}
+
+// manifestAsBlobCase: a tagged root R lists, as a plain blob, a verbatim copy of an
+// image manifest M, and reaches M itself one or two levels further down (through an
+// index, its subject or a manifest list). M is untagged; then GC runs. Everything M
+// links to is reachable from the tagged R and must stay.
+func manifestAsBlobCase(t *rapid.T) Case {
+	c := Case{AutoGC: rapid.Bool().Draw(t, "autoGC")}
+	add := func(s gen.NodeSpec) int { c.Specs = append(c.Specs, s); return len(c.Specs) - 1 }
+	cfg := add(gen.NodeSpec{Kind: gen.KBlob, Seed: 801, Size: 9, MT: "application/vnd.oci.image.config.v1+json"})
+	layer := add(gen.NodeSpec{Kind: gen.KBlob, Seed: 802, Size: 21, MT: "application/vnd.oci.image.layer.v1.tar"})
+	m := add(gen.NodeSpec{Kind: gen.KImage, Config: &gen.Ref{N: cfg}, Layers: []gen.Ref{{N: layer}}})
+	via := add(gen.NodeSpec{Kind: gen.KIndex, Layers: []gen.Ref{{N: m}}})
+	if rapid.Bool().Draw(t, "twoLevels") {
+		via = add(gen.NodeSpec{Kind: gen.KIndex, Layers: []gen.Ref{{N: via}}})
+	}
+	copyOfM := add(gen.NodeSpec{Kind: gen.KBlob, MT: "application/octet-stream", Alias: m + 1})
+	cfg2 := add(gen.NodeSpec{Kind: gen.KBlob, Seed: 803, Size: 7, MT: "application/vnd.oci.image.config.v1+json"})
+	var root int
+	if rapid.Bool().Draw(t, "viaSubject") {
+		root = add(gen.NodeSpec{Kind: gen.KImage, Config: &gen.Ref{N: cfg2}, Layers: []gen.Ref{{N: copyOfM}}, Subject: &gen.Ref{N: via}, ArtifactType: "application/vnd.verif.attestation"})
+	} else {
+		att := add(gen.NodeSpec{Kind: gen.KImage, Config: &gen.Ref{N: cfg2}, Layers: []gen.Ref{{N: copyOfM}}})
+		root = add(gen.NodeSpec{Kind: gen.KIndex, Layers: []gen.Ref{{N: att}, {N: via}}})
+	}
+	for _, id := range rapid.Permutation(seq(len(c.Specs))).Draw(t, "order") {
+		c.Ops = append(c.Ops, Op{Op: "push", N: id})
+	}
+	c.Ops = append(c.Ops, Op{Op: "tag", N: root, Ref: "latest"})
+	for i := rapid.IntRange(1, 2).Draw(t, "gcs"); i > 0; i-- {
+		c.Ops = append(c.Ops, Op{Op: "gc"})
+	}
+	c.Ops = append(c.Ops, Op{Op: rapid.SampledFrom([]string{"reopen", "gc"}).Draw(t, "last")})
+	return c
+}
 func genCase(t *rapid.T) Case  { return genCaseOpt(t, false) }
 
 // chainCase: referrers that are reachable only through other referrers - a tagged
@@ -177,6 +218,9 @@ func genCaseOpt(t *rapid.T, alias bool) Case {
 			op = Op{Op: "delete", N: rapid.SampledFrom(ids).Draw(t, "delN")}
 		case r < 82:
 			op = Op{Op: "gc"}
+			if rapid.IntRange(0, 2).Draw(t, "gcInterrupted") == 1 {
+				op.Poll = rapid.IntRange(1, 14).Draw(t, "gcPoll")
+			}
 		case r < 88:
 			op = Op{Op: "reopen"}
 		default:
@@ -669,6 +713,20 @@ func runCase(c Case) (res vt.Result, fail *vt.Fail) {
 				res.NonTrivial = true
 				classes["gc-removes-and-keeps"] = true
 			}
+			if op.Poll > 0 {
+				// a first GC whose context is cancelled at its N-th poll (while the
+				// index is rebuilt, or during the sweep): whatever it got done, the GC
+				// that follows must end in the state one GC produces
+				cd := &countdownCtx{Context: ctx, left: op.Poll, done: make(chan struct{})}
+				var ierr error
+				fin, dump := vt.Watch(watchdog, func() { ierr = s.GC(cd) })
+				if !fin {
+					vt.ReportHang("main", js(), vt.Failf("C09/gc-hang", "%s: GC under a context cancelled at poll %d did not return", when, op.Poll), dump)
+				}
+				if ierr != nil {
+					classes["gc-interrupted-then-repeated"] = true
+				}
+			}
 			var gerr error
 			fin, dump := vt.Watch(watchdog, func() { gerr = s.GC(ctx) })
 			if !fin {
@@ -691,6 +749,37 @@ func runCase(c Case) (res vt.Result, fail *vt.Fail) {
 	}
 	res.Classes = keys(classes)
 	return res, nil
+}
+
+// countdownCtx is cancelled when it is asked for Done() or Err() the left-th time.
+type countdownCtx struct {
+	context.Context
+	mu    sync.Mutex
+	left  int
+	fired bool
+	done  chan struct{}
+}
+
+func (c *countdownCtx) tick() bool {
+	c.mu.Lock()
+	defer c.mu.Unlock()
+	if !c.fired {
+		c.left--
+		if c.left <= 0 {
+			c.fired = true
+			close(c.done)
+		}
+	}
+	return c.fired
+}
+
+func (c *countdownCtx) Done() <-chan struct{} { c.tick(); return c.done }
+
+func (c *countdownCtx) Err() error {
+	if c.tick() {
+		return context.Canceled
+	}
+	return nil
 }
 
 func subjectOf(d *gen.DAG, id int) (int, bool) {
@@ -724,6 +813,7 @@ func short(xs []string) []string {
 
 func TestMain(m *testing.M) {
 	vt.ReplayRepeat["tagrace"] = 100
+	vt.ReplayRepeat["main"], vt.ReplayRepeat["alias"] = 20, 20
 	vt.Main(m, "C09",
 		vt.NewLeg("main", 2500, 6000, 16, genCase, runCase),
 		vt.NewLeg("alias", 1200, 4000, 8, genAlias, runCase),
